@@ -74,6 +74,8 @@ func init() {
 			}
 			if r.IntN(4) == 0 {
 				tx.WriteTime = int64(1 + r.IntN(100))
+			} else if t > 0 && p.Txns[t-1].WriteTime != 0 && r.IntN(2) == 0 {
+				tx.WriteTime = -1 // the connection keeps the write_time it has (a bulk load pinned to one time)
 			}
 			if tx.End == "commit" && r.IntN(5) == 0 {
 				tx.FailAt = 1 + r.IntN(6)
@@ -98,7 +100,7 @@ func runC05(x *Exec) {
 		}
 	}
 	for _, t := range p.Txns {
-		if t.WriteTime < 0 || t.WriteTime > 100000 {
+		if t.WriteTime < -1 || t.WriteTime > 100000 {
 			x.Invalid()
 			return
 		}
@@ -140,6 +142,10 @@ func runC05(x *Exec) {
 			return all
 		}
 		leakable := map[string]bool{}
+		leftover, keptWT := false, false
+		for _, tx := range p.Txns {
+			keptWT = keptWT || tx.WriteTime == -1
+		}
 		compare := func(when string) bool {
 			rs, es := c.Query(full + " FROM " + t + " ORDER BY k")
 			rn, en := c.Query(full + " FROM n ORDER BY k")
@@ -171,13 +177,20 @@ func runC05(x *Exec) {
 					x.Fail("C05-rollback-leak", "%s: rows inserted by a rolled-back transaction are visible again: s3db %s native %s", when, RowsString(rs), RowsString(rn))
 					return false
 				}
-				x.Fail("C05-view-differs", "%s: the connection sees %s, expected (its own writes applied to the pre-BEGIN rows) %s", when, RowsString(rs), RowsString(rn))
+				class := "C05-view-differs"
+				if leftover && keptWT {
+					// open finding KF-29: transactions pinned to one write_time, a version left listed next to
+					// its descendants by a failed retire step, and an open or refresh that merges them with
+					// every value tied
+					class = "C05-view-differs-tied-ancestor-merged"
+				}
+				x.Fail(class, "%s: the connection sees %s, expected (its own writes applied to the pre-BEGIN rows) %s", when, RowsString(rs), RowsString(rn))
 				return false
 			}
 			return true
 		}
 		writer := func() {
-			var maxWT time.Time
+			var maxWT, pinnedWT time.Time
 			for ti, tx := range p.Txns {
 				if x.Failed() {
 					return
@@ -190,13 +203,18 @@ func runC05(x *Exec) {
 					c.Step(fmt.Sprintf("advance:%d", int64(d+time.Second)))
 				}
 				var explicitWT time.Time
-				if tx.WriteTime != 0 {
+				switch {
+				case tx.WriteTime == -1 && !pinnedWT.IsZero():
+					explicitWT = pinnedWT // write_time stays as the previous transaction set it
+					x.Probe("write-time-kept-across-transactions")
+				case tx.WriteTime > 0:
 					explicitWT = time.Now().Truncate(time.Second).Add(time.Duration(tx.WriteTime+1) * time.Second)
 					maxWT = explicitWT
 					c.SetWriteTime(int64(explicitWT.Sub(T0)))
-				} else {
+				default:
 					c.SetWriteTime(0)
 				}
+				pinnedWT = explicitWT
 				before := versionNames()
 				beforeRows, _ := c.Query(full + " FROM n ORDER BY k")
 				explicit := tx.End != "auto"
@@ -342,6 +360,11 @@ func runC05(x *Exec) {
 					}
 					mutBefore := len(w.S.Mut)
 					_, cerr := c.Exec("COMMIT")
+					if cerr == nil && len(w.Faults) > 0 && w.Faults[0].Fired > 0 {
+						// the fault hit the retire step, whose errors are swallowed: a retired version stays listed
+						leftover = true
+						x.Probe("commit-acknowledged-retire-failed")
+					}
 					w.Faults = nil
 					if cerr != nil {
 						c.Exec("ROLLBACK")
@@ -401,14 +424,14 @@ func runC05(x *Exec) {
 							return
 						}
 						want := firstWrite.UnixNano()
-						if tx.WriteTime != 0 {
+						if !explicitWT.IsZero() {
 							want = explicitWT.UnixNano()
 						}
 						x.Check()
 						for _, e := range wt.Entries {
 							if e.Key.T == 1 && touched[int(e.Key.I)] && e.Mod != want {
 								x.Fail("C05-write-time", "%s: entry %s carries write time %s, the transaction's write time is %s (explicit=%v)", desc,
-									e.Key.Canon(), time.Unix(0, e.Mod).UTC().Format(wtLayout), time.Unix(0, want).UTC().Format(wtLayout), tx.WriteTime != 0)
+									e.Key.Canon(), time.Unix(0, e.Mod).UTC().Format(wtLayout), time.Unix(0, want).UTC().Format(wtLayout), !explicitWT.IsZero())
 								return
 							}
 						}
@@ -444,7 +467,11 @@ func runC05(x *Exec) {
 					cs = append(cs, k)
 				}
 				sort.Strings(cs)
-				x.Fail("C05-partial-visible", "another opener saw %s, which is not the state after any committed transaction (%s)", v, strings.Join(cs, " ; "))
+				class := "C05-partial-visible"
+				if leftover && keptWT {
+					class = "C05-partial-visible-tied-ancestor-merged" // KF-29, seen by another opener
+				}
+				x.Fail(class, "another opener saw %s, which is not the state after any committed transaction (%s)", v, strings.Join(cs, " ; "))
 				return
 			}
 		}
